@@ -360,8 +360,13 @@ def gen_split_case(rng, max_n, near=None):
                     seed=rng.randrange(2 ** 32), mode="near_integer")
     n = rng.choice([1, 2, 3, 4, 5, 7, 10, 13, 20, rng.randint(1, max_n), rng.randint(1, max_n)])
     nf = rng.randint(1, 5)
-    mode = rng.choice(["distinct", "distinct", "dups", "ints"])
-    if mode == "distinct":
+    mode = rng.choice(["distinct", "distinct", "dups", "ints", "sparse"])
+    if mode == "sparse":
+        # sparse / bag-of-words style rows: many all-zero feature vectors (also -0.0), so that one part of a small split can
+        # consist of zero vectors only
+        X = [[0.0 if rng.random() < 0.5 else -0.0 for _ in range(nf)] if rng.random() < 0.5 else
+             [0.0 if rng.random() < 0.6 else float(rng.randint(1, 4)) for _ in range(nf)] for _ in range(n)]
+    elif mode == "distinct":
         X = [[rng.gauss(0, 5) for _ in range(nf)] for _ in range(n)]
     elif mode == "dups":
         pool = [[rng.gauss(0, 5) for _ in range(nf)] for _ in range(max(1, n // 3))]
@@ -371,6 +376,8 @@ def gen_split_case(rng, max_n, near=None):
     K = rng.randint(1, 5)
     Y = [rng.randrange(K) for _ in range(n)] if rng.random() < 0.7 else list(range(n))
     pct = rng.choice(PERCENTAGES) if rng.random() < 0.6 else rng.random()
+    if mode == "sparse" and rng.random() < 0.7 and n >= 2:
+        pct = rng.choice([1.0 / n, 1.5 / n, 1.0 - 1.0 / n, 0.1, 0.9])
     seed = rng.choice([0, 1, 2, 42, 2 ** 32 - 1, rng.randrange(2 ** 32), rng.randrange(2 ** 32)])
     return dict(X=X, Y=Y, pct=pct, seed=seed, mode=mode)
 
